@@ -2,6 +2,7 @@
 import AiuVerif.Basic
 import AiuVerif.Model.Overlap
 import AiuVerif.Model.OverlapSort
+import AiuVerif.Model.LaneLabel
 
 namespace AiuVerif.Drv.C04
 open AiuVerif AiuVerif.Overlap
@@ -46,6 +47,11 @@ def handle (args : List String) : String :=
   | ["sort", evs] =>
     match parseAll parseEv (fields evs ";" |>.filter (· ≠ "-")) with
     | some l => "ok " ++ showOut (sortStage l)
+    | none => "bad-op"
+  | ["label", o, k] =>
+    -- lane name of a torch slice with string tid `o` (blanks written `~`) that sits `k` tids above hash(o)
+    match parseNat? k with
+    | some k => (LaneLabel.laneLabel (o.replace "~" " ") k).replace " " "~"
     | none => "bad-op"
   | ["rnd4", q] =>
     match parseRat? q with
